@@ -1,4 +1,5 @@
 import SJ.Model.Hex
+import SJ.Proofs.Bytes256
 import Std.Tactic.BVDecide
 /-! Helper lemmas for `c05_hex4_spec`: per-byte table facts (256 entries, by evaluation) and the
     combination lemma on `BitVec 32` (the sign-bit trick), by `bv_decide`. -/
@@ -18,11 +19,8 @@ def byteOk (x : UInt8) : Bool :=
   | some v => decide (v < 16) && lookup 0 x == BitVec.ofNat 32 v && lookup 1 x == BitVec.ofNat 32 v <<< 4
   | none => lookup 0 x == BitVec.allOnes 32 && lookup 1 x == BitVec.allOnes 32
 
-theorem byteOk_table : (List.range 256).all (fun i => byteOk (UInt8.ofNat i)) = true := by decide +kernel
-
-theorem byteOk_all (x : UInt8) : byteOk x = true := by
-  have h := List.all_eq_true.mp byteOk_table x.toNat (by simp [List.mem_range, x.toNat_lt])
-  simpa using h
+theorem byteOk_all : ∀ x : UInt8, byteOk x = true :=
+  Bytes256.all256 byteOk (by decide +kernel) (by decide +kernel) (by decide +kernel) (by decide +kernel)
 
 theorem lookup_some {x : UInt8} {v : Nat} (h : hexDigitVal x = some v) :
     v < 16 ∧ lookup 0 x = BitVec.ofNat 32 v ∧ lookup 1 x = BitVec.ofNat 32 v <<< 4 := by
@@ -52,15 +50,16 @@ theorem comb_neg (a b c d : BitVec 32)
   bv_decide
 
 /-- every table value, seen as `i32`, is `-1` or below `0x100` -/
-theorem lookup_range_table :
-    (List.range 256).all (fun i => (lookup 0 (UInt8.ofNat i) == BitVec.allOnes 32 || decide (lookup 0 (UInt8.ofNat i) < 0x100#32)) &&
-      (lookup 1 (UInt8.ofNat i) == BitVec.allOnes 32 || decide (lookup 1 (UInt8.ofNat i) < 0x100#32))) = true := by
-  decide +kernel
+def rangeOk (x : UInt8) : Bool :=
+  (lookup 0 x == BitVec.allOnes 32 || decide (lookup 0 x < 0x100#32)) &&
+  (lookup 1 x == BitVec.allOnes 32 || decide (lookup 1 x < 0x100#32))
+
+theorem rangeOk_all : ∀ x : UInt8, rangeOk x = true :=
+  Bytes256.all256 rangeOk (by decide +kernel) (by decide +kernel) (by decide +kernel) (by decide +kernel)
 
 theorem lookup_range (x : UInt8) :
     (lookup 0 x = BitVec.allOnes 32 ∨ lookup 0 x < 0x100#32) ∧ (lookup 1 x = BitVec.allOnes 32 ∨ lookup 1 x < 0x100#32) := by
-  have h := List.all_eq_true.mp lookup_range_table x.toNat (by simp [List.mem_range, x.toNat_lt])
-  simpa using h
+  simpa [rangeOk] using rangeOk_all x
 
 theorem ofNat_lt16 {v : Nat} (h : v < 16) : BitVec.ofNat 32 v < 16#32 := by
   simp [BitVec.lt_def, BitVec.toNat_ofNat]; omega
